@@ -282,7 +282,7 @@ class NodeEvaluateImpl(NodeKernel):
     fn_name = "evaluate_impl"
     filter = "evaluate_impl"
     sig = "bool (const void *, const hgraph::NodeView &, hgraph::DateTime)"
-    property_ids = ("C03", "C15", "C18", "C02", "C14")
+    property_ids = ("C03", "C15", "C18", "C02", "C14", "C17")
     title = "node evaluate_impl: lifecycle/readiness gate, optional error capture, scheduler tail"
 
     def setup(self, I):
@@ -381,11 +381,11 @@ class NodeEvaluateImpl(NodeKernel):
         eff1 = self.G.get(ctx, "eff")
         ctx.oblige("ensures.scheduler-tail:armed-after-every-evaluation[C18 Armed; C02 node scheduler re-arms the slot; C03 a requested "
                    "wake-up still becomes due after an input-driven evaluation; "
-                   "C15 also after a captured failure]",
+                   "C15 also after a captured failure; C17 an alarm that falls due is delivered, not dropped]",
                    z3.Implies(z3.And(started, self.has_scheduler),
                               z3.ForAll([qt, qg], z3.Implies(z3.And(sel2(ev1, qt, qg), qt < MAX_DT, qt > self.T),
                                                              eff1[self.node_index] <= qt))), kind="post-normal")
-        ctx.oblige("ensures.scheduler-tail:fired-events-consumed-iff-fired-by-the-scheduler[C18]",
+        ctx.oblige("ensures.scheduler-tail:fired-events-consumed-iff-fired-by-the-scheduler[C18; C17]",
                    z3.Implies(z3.And(started, self.has_scheduler),
                               self.gg(ctx, "advanced") == self.scheduled_now_spec), kind="post-normal")
 
